@@ -9116,7 +9116,7 @@ let eval_body pedantic lim self n0 c =
                           (fun aid -> add_arr c id.tval aid))) ids) (fun _ ->
                ret res_none)))
   | NEnumDef (t0, name, vals) ->
-    bind (is_identifier_type c name false) (fun ist ->
+    bind (is_identifier_type c name true) (fun ist ->
       if ist
       then rt_error t0 c
       else bind
@@ -9127,7 +9127,7 @@ let eval_body pedantic lim self n0 c =
     bind (get_type c ty true) (fun pty ->
       if dt_is pty KNone
       then not_defined_error t0 c
-      else bind (is_identifier_type c name false) (fun ist ->
+      else bind (is_identifier_type c name true) (fun ist ->
              if ist
              then rt_error t0 c
              else bind
@@ -9135,7 +9135,7 @@ let eval_body pedantic lim self n0 c =
                       ctx_with_ptrs (app k.x_ptrs ((name.tval, pty) :: [])) k))
                     (fun _ -> ret res_none)))
   | NCompDef (t0, name, body) ->
-    bind (is_identifier_type c name false) (fun ist ->
+    bind (is_identifier_type c name true) (fun ist ->
       if ist
       then rt_error t0 c
       else bind
@@ -9367,15 +9367,24 @@ let eval_body pedantic lim self n0 c =
                       | _ ->
                         bind (as_payload dr) (fun p0 ->
                           bind (prim_to_string p0) (fun s ->
-                            bind
-                              (modify (fun st0 ->
-                                set_fs
-                                  (fs_set name
-                                    (app
-                                      (match fs_get name st0.s_fs with
-                                       | Some old -> old
-                                       | None -> []) (app s (ch_nl :: [])))
-                                    st0.s_fs) st0)) (fun _ -> ret res_none)))))
+                            bind (gets (fun s0 -> s0.s_files)) (fun fl2 ->
+                              match find_file name fl2 with
+                              | Some fh2 ->
+                                (match fh2.of_mode with
+                                 | FRead -> rt_error t0 c
+                                 | FRandom -> rt_error t0 c
+                                 | _ ->
+                                   bind
+                                     (modify (fun st0 ->
+                                       set_fs
+                                         (fs_set name
+                                           (app
+                                             (match fs_get name st0.s_fs with
+                                              | Some old -> old
+                                              | None -> [])
+                                             (app s (ch_nl :: []))) st0.s_fs)
+                                         st0)) (fun _ -> ret res_none))
+                              | None -> rt_error t0 c)))))
                | None -> rt_error t0 c)))
   | NCloseFile (t0, fn) ->
     bind (self.ev_eval fn c) (fun fr ->
